@@ -640,6 +640,23 @@ fn spur_world(detours: &[usize], entry_cost: &[f64], len: usize) -> (World, Quer
     let q = Query { alg: Alg::Dijkstra, dir: Dir::Forward, orient: Orient::Vertex, source: 0, target: Some(target), query_wf: None };
     (w, q)
 }
+/// origin 0, destination 1 and m two-link alternatives 0 -> v_i -> 1; alternative i costs about 2 * (1 + 3 i), so the
+/// forward and the reverse search each pop the origin, v_0 and then the destination (3 limit tests) while every v_i
+/// is in both trees: m via candidates
+fn hub_world(rng: &mut Rng, m: usize) -> (World, Query) {
+    let mut edges = vec![];
+    let mut cost = vec![];
+    for i in 0..m {
+        let c = 1.0 + 3.0 * i as f64;
+        edges.push((0, 2 + i));
+        cost.push(c + rng.below(32) as f64 / 64.0);
+        edges.push((2 + i, 1));
+        cost.push(c + rng.below(32) as f64 / 64.0);
+    }
+    let w = World::new(m + 2, edges, cost);
+    let q = Query { alg: Alg::Dijkstra, dir: Dir::Forward, orient: Orient::Vertex, source: 0, target: Some(1), query_wf: None };
+    (w, q)
+}
 /// every edge also in the other direction (same cost): gives the reverse sub-search of single-via something to do
 fn two_way(w: &World) -> World {
     let mut w2 = w.clone();
@@ -701,6 +718,16 @@ fn stream_ksp(a: &Args) {
         let alg = if r.chance(1, 2) { Alg::Dijkstra } else { Alg::AStar(None) };
         let k = if r.chance(1, 5) { 3 } else { 2 };
         add_ksp_case(&mut st, "yens_spurs_of_different_length", &w, &Query { alg, ..q }, &Ksp::Yens { k }, None, &mut r, 24);
+    }
+    // hub networks and a large k: single-via examines many via candidates AFTER its two (short) searches; an iteration
+    // limit between what the searches need and the number of candidates must not stop the query
+    for _ in 0..(a.n / 12).max(3) {
+        let mut r = rng.fork();
+        let m = 8 + r.below(25) as usize;
+        let (w, q) = hub_world(&mut r, m);
+        let alg = if r.chance(1, 2) { Alg::Dijkstra } else { Alg::AStar(None) };
+        let k = if r.chance(1, 3) { m + 3 } else { m / 2 + r.below(m as u64 / 2 + 1) as usize };
+        add_ksp_case(&mut st, "single_via_hub_large_k", &w, &Query { alg, ..q }, &Ksp::SingleVia { k, cosine: false }, None, &mut r, 24);
     }
     let mut attempts = 0;
     while st.next_id() < a.n && attempts < 20 * a.n {
@@ -1020,6 +1047,21 @@ fn gen_config_sweep(rng: &mut Rng, needed_it: u64, needed_sz: u64) -> (Vec<Value
     js.push(json!({"type": "combined", "models": [{"type": "iterations", "limit": a}, {"type": "solution_size", "limit": b}]}));
     js.push(json!({"type": "combined", "models": [{"type": "solution_size", "limit": 0}, {"type": "iterations", "limit": needed_it + 1}]}));
     js.push(json!({"type": "Combined", "models": [{"type": "combined", "models": [{"type": "iterations", "limit": 0}]}, {"type": "solution_size", "limit": needed_sz + 1}]}));
+    // two+ limits of the SAME kind in one combined model, the stricter one first (a strict site limit followed by a
+    // looser one, directly or inside a nested combined block), the control order, and exact duplicates: a combined
+    // model stops as soon as ANY configured limit at any depth is exceeded and names every exceeded one
+    let strict_it = rng.below(needed_it.max(1));
+    let strict_sz = rng.below(needed_sz.max(1));
+    js.push(json!({"type": "combined", "models": [{"type": "iterations", "limit": strict_it}, {"type": "iterations", "limit": needed_it + 1000}]}));
+    js.push(json!({"type": "combined", "models": [{"type": "iterations", "limit": needed_it + 1000}, {"type": "iterations", "limit": strict_it}]}));
+    js.push(json!({"type": "combined", "models": [{"type": "solution_size", "limit": strict_sz}, {"type": "iterations", "limit": needed_it + 5}, {"type": "solution_size", "limit": needed_sz + 2000}]}));
+    js.push(json!({"type": "combined", "models": [{"type": "iterations", "limit": 1},
+        {"type": "combined", "models": [{"type": "query_runtime", "limit": "0:10:00", "frequency": 10}, {"type": "iterations", "limit": 1000}]}]}));
+    js.push(json!({"type": "combined", "models": [{"type": "solution_size", "limit": strict_sz},
+        {"type": "combined", "models": [{"type": "solution_size", "limit": 2000}, {"type": "query_runtime", "limit": "0:10:00", "frequency": 10}]}]}));
+    js.push(json!({"type": "combined", "models": [{"type": "combined", "models": [{"type": "iterations", "limit": strict_it}]},
+        {"type": "combined", "models": [{"type": "combined", "models": [{"type": "iterations", "limit": needed_it + 7}]}]}]}));
+    js.push(json!({"type": "combined", "models": [{"type": "solution_size", "limit": strict_sz}, {"type": "iterations", "limit": strict_it}, {"type": "solution_size", "limit": strict_sz}]}));
     // outside the property (negative numbers, missing field): whatever the builder does is only compared with the model
     js.push(json!({"type": "iterations", "limit": -1}));
     js.push(json!({"type": "solution_size", "limit": -(1 + rng.below(5) as i64)}));
@@ -1036,6 +1078,10 @@ fn gen_config_sweep(rng: &mut Rng, needed_it: u64, needed_sz: u64) -> (Vec<Value
     }
     js.push(json!({"type": "Query_Runtime", "limit": "0:00:01", "frequency": 1 + rng.below(5)}));
     js.push(json!({"type": "combined", "models": [{"type": "query_runtime", "limit": "0:00:01", "frequency": f}, {"type": "iterations", "limit": a}]}));
+    // two runtime budgets in one combined model, the tight one first / inside a nested block after a generous one
+    js.push(json!({"type": "combined", "models": [{"type": "query_runtime", "limit": "0:00:01", "frequency": f}, {"type": "query_runtime", "limit": "0:10:00", "frequency": f}]}));
+    js.push(json!({"type": "combined", "models": [{"type": "query_runtime", "limit": "0:00:00", "frequency": 1},
+        {"type": "combined", "models": [{"type": "iterations", "limit": needed_it + 9}, {"type": "query_runtime", "limit": "1:00:00", "frequency": 1}]}]}));
     js.push(json!({"type": "query_runtime", "limit": "0:00:01", "frequency": 0}));
     (js, script)
 }
